@@ -275,7 +275,11 @@ def decoder_rules(ctx, R, skip_d3=False):
         if isinstance(n, ast.Subscript) and any(isinstance(x, ast.Name) and x.id in tvg for x in ast.walk(n.value)):
             probs.append(("subscript", n))
         if isinstance(n, (ast.If, ast.While)) and any(isinstance(x, ast.Name) and x.id in tvg for x in ast.walk(n.test)):
-            probs.append(("branch", n))
+            t_ = n.test
+            none_test = isinstance(t_, ast.Compare) and len(t_.ops) == 1 and isinstance(t_.ops[0], (ast.Is, ast.IsNot)) \
+                and isinstance(t_.comparators[0], ast.Constant) and t_.comparators[0].value is None and isinstance(t_.left, ast.Name)
+            if not none_test:  # `x is None` tells a reply without payload from one with: it does not look at the script
+                probs.append(("branch", n))
         if isinstance(n, (ast.ListComp, ast.GeneratorExp)) and any(g.ifs for g in n.generators):
             probs.append(("filter", n))
         if isinstance(n, ast.Call) and isinstance(n.func, ast.Attribute) and n.func.attr in ("strip", "rstrip", "lstrip", "replace", "pop", "remove") \
